@@ -105,6 +105,7 @@ def gen_loss_desc(rng, kind, D, N):
 def gen_data(rng, N, D, E, filters, shapes=None, int_data=False):
     """Real (N, D) and simulated (E, N, D) data; coordinates that feed a log filter are positive."""
     shapes = shapes or ["normal", "normal", "heavy", "constant", "twovalued", "tied", "symint", "monotone", "walk"]
+    tiny_units = bool(rng.random() < 0.06) and not int_data
     real = np.empty((N, D))
     sim = np.empty((E, N, D))
     kinds = []
@@ -113,6 +114,8 @@ def gen_data(rng, N, D, E, filters, shapes=None, int_data=False):
         kinds.append(sh)
         pos = filters is not None and filters[i] is not None and filters[i][0] in ("log_hp", "diff_log_demean")
         scale = float(10.0 ** rng.integers(-2, 3))
+        if tiny_units:
+            scale = float(10.0 ** rng.integers(-13, -8))     # data expressed in small units: every definition here is scale-free or scale-equivariant
 
         def one():
             if sh == "normal":
